@@ -1025,3 +1025,310 @@ def C16(ctx):
     o = ctx.corr("d2n ACGN")
     if o != "err ValueError | err ValueError":
         ctx.fail("foreign nucleotide not reported as ValueError", observed=o)
+
+
+# =============================================================================== C17
+def spectral_info(g):
+    """(nontrivial SCC count, rho, gap ratio) using floating point — only to *select* graphs that
+    meet the structural precondition; the verdict uses the certified enclosure below."""
+    comps = [c for c in oracle.sccs(g) if len(c) > 1 or (g.nib[c[0]] and c[0] in [succ(c[0], j, g.k) for j in g.live(c[0])])]
+    M = np.zeros((g.n, g.n))
+    for u in range(g.n):
+        for j in g.live(u):
+            M[u][succ(u, j, g.k)] = 1
+    ev = sorted(np.abs(np.linalg.eigvals(M)), reverse=True)
+    rho = ev[0]
+    ratio = ev[1] / rho if rho > 1e-9 and len(ev) > 1 else 0.0
+    return comps, rho, ratio
+
+
+def certified_enclosure(g, comp, iters=400):
+    """Collatz-Wielandt bounds on the spectral radius of the irreducible block `comp`, in exact
+    integer arithmetic (soundness of the bounds is the Lean theorem C17_certificate)."""
+    from fractions import Fraction
+    idx = {v: i for i, v in enumerate(comp)}
+    nb = [[idx[succ(v, j, g.k)] for j in g.live(v) if succ(v, j, g.k) in idx] for v in comp]
+    x = [1] * len(comp)
+    lo, hi = Fraction(0), Fraction(4)
+    for _ in range(iters):
+        y = [sum(x[w] for w in nb[i]) for i in range(len(comp))]
+        rs = [Fraction(y[i], x[i]) for i in range(len(comp))]
+        lo, hi = max(lo, min(rs)), min(hi, max(rs))
+        x = y
+        if hi - lo < Fraction(1, 10 ** 9):
+            break
+    return lo, hi
+
+
+def C17(ctx):
+    rng = ctx.rng
+    tol = 1e-4
+    # arc-less graph and regular graphs
+    for k in (1, 2, 3):
+        z = -np.ones((4 ** k, 4), dtype=int)
+        if GZ.approximate_capacity(z) != 0.0 or GZ.approximate_capacity(z, repeats=3) != 0.0:
+            ctx.fail("arc-less graph does not have capacity 0", k=k)
+        ctx.case("arcless %d" % k, False, "arcless")
+    for it in range(ctx.n(40, 600)):
+        k = rng.choice([1, 2, 3])
+        d = rng.choice([1, 2, 3, 4])
+        # every live vertex has exactly d live successors: take a closed set then restrict columns
+        S = gen.gfp_mask(k, gen.rand_mask(rng, k, rng.choice([0.7, 0.9, 1.0])), d)
+        if not any(S):
+            continue
+        g = gen.induced(k, S)
+        # prune arcs down to exactly d per vertex, keeping targets inside S (targets are live by construction)
+        nib = []
+        for v in range(g.n):
+            cols = g.live(v)
+            keep = rng.sample(cols, d) if len(cols) >= d else cols
+            nib.append(sum(1 << j for j in keep))
+        h = gen.Graph(k, nib)
+        live = set(h.vertices())
+        if any(len([j for j in h.live(v) if succ(v, j, k) in live]) != d for v in live):
+            continue
+        rows = np.array(h.rows(), dtype=int)
+        cap = float(GZ.approximate_capacity(rows))
+        if cap != math.log2(d):
+            ctx.fail("deterministic mode does not return exactly log2 d on a d-regular graph", acc=h.token(), d=d, observed=cap)
+        ctx.case("regular %s" % h.token(), d >= 2, "regular-d%d" % d)
+    # spectral radius
+    for it in range(ctx.n(60, 1500)):
+        k = rng.choice([2, 2, 3] if not ctx.thorough else [2, 3, 3, 4])
+        g = rng.choice([gen.rand_arc_subset, lambda r, kk: gen.rand_coding_graph(r, kk)[0], gen.rand_profile_graph])(rng, k)
+        rows = np.array(g.rows(), dtype=int)
+        comps, rho, ratio = spectral_info(g)
+        caps = []
+        for repeats in (1, 2, rng.choice([3, 5, 10])):
+            np.random.seed(rng.randrange(2 ** 31))
+            st, cap = proto.guarded(lambda: float(GZ.approximate_capacity(rows, repeats=repeats)), 60)
+            if st != "ok":
+                ctx.fail("approximate_capacity raised", acc=g.token(), repeats=repeats, observed=str(cap))
+                continue
+            caps.append((repeats, cap))
+            if cap > 2.0 + 1e-12:
+                ctx.fail("capacity exceeds 2 bits per nucleotide", acc=g.token(), repeats=repeats, observed=cap)
+        pre = len(comps) == 1 and ratio <= 0.9 and rho > 1e-9
+        if pre:
+            lo, hi = certified_enclosure(g, comps[0])
+            if hi - lo < 1e-7:
+                l2lo, l2hi = math.log2(float(lo)), math.log2(float(hi))
+                for repeats, cap in caps:
+                    if not (l2lo - tol <= cap <= l2hi + tol):
+                        ctx.fail("capacity is not within 1e-4 of log2 of the spectral radius", acc=g.token(),
+                                 repeats=repeats, observed=cap, enclosure=[l2lo, l2hi])
+        ctx.case("cap " + g.token(), pre and abs(rho - round(rho)) > 1e-6, "precondition" if pre else "no-precondition")
+
+
+# =============================================================================== C18
+def C18(ctx):
+    rng = ctx.rng
+    perms = list(itertools.permutations(range(4)))
+    # induced digit map through the real encode / decode
+    for row in perms[ctx.part::ctx.nparts]:
+        for pattern in range(1, 16):
+            g = gen.Graph(2, [15, pattern] + [15] * 14)     # probe vertex 1 (AC): its successors 4..7 are 4-way
+            live = g.live(1)
+            tbl = [[0, 1, 2, 3], list(row)] + [[0, 1, 2, 3]] * 14
+            seen = {}
+            for d in range(len(live)):
+                r_ = len(live)
+                if r_ in (2, 4) and rng.random() < 0.5:
+                    bits, fast = oracle.bits_be(d, 1 if r_ == 2 else 2), 1
+                else:
+                    val = d + r_ if r_ > 1 else 1          # first digit d, then quotient 1
+                    bits, fast = oracle.bits_be(val, val.bit_length() + rng.randrange(2)), 0
+                key = "enc %s %s 1 %s %d 0" % (g.token(), tbl_token(tbl), bits_token(bits), fast)
+                r = parse_ok(ctx.corr(key))
+                if r is None or r[0] == "-":
+                    ctx.fail("encode failed on a one-vertex digit probe", line=key)
+                    continue
+                first = r[0][0]
+                if NUC.index(first) not in live:
+                    ctx.fail("digit mapped to a dead arc", line=key, strand=r[0])
+                if len(live) > 1:
+                    if first in seen.values():
+                        ctx.fail("two digits map to the same arc (not a bijection)", row=list(row), pattern=pattern)
+                    seen[d] = first
+                    exp = sorted(live, key=lambda j: row[j])[d]
+                    if NUC.index(first) != exp:
+                        ctx.fail("digit does not select the live arc with the d-th smallest table entry", line=key,
+                                 strand=r[0], expected=NUC[exp])
+                dd = ctx.corr("dec %s %s 1 %s %d %d None" % (g.token(), tbl_token(tbl), r[0], len(bits), fast))
+                if dd != "ok " + bits_token(bits):
+                    ctx.fail("decode does not invert the digit map", line=key, observed=dd)
+                ctx.case(key, list(row) != [0, 1, 2, 3] and 2 <= len(live) <= 3, "live=%d" % len(live))
+    # table shape / permutation rows / reproducibility / no side effects
+    import copy
+    for it in range(ctx.n(40, 600)):
+        k = rng.choice([1, 2, 3, 4] if not ctx.thorough else [1, 2, 3, 4, 5, 6])
+        seed = rng.randrange(2 ** 31)
+        snap = {n: copy.deepcopy(v) for n, v in vars(SW).items()
+                if not n.startswith("__") and isinstance(v, (int, float, str, list, dict, tuple, set))}
+        t1 = SW.create_random_shuffles(k, random_seed=seed)
+        np.random.random(rng.randrange(5))       # disturb the global generator between calls
+        other = SW.create_random_shuffles(k, random_seed=seed + 1)
+        t2 = SW.create_random_shuffles(k, random_seed=seed)
+        with contextlib.redirect_stdout(io.StringIO()):
+            t3 = SW.create_random_shuffles(k, random_seed=seed, verbose=True)
+        if t1.shape != (4 ** k, 4) or any(sorted(r.tolist()) != [0, 1, 2, 3] for r in t1):
+            ctx.fail("table is not 4^k rows of permutations of 0..3", k=k, seed=seed)
+        if not (np.array_equal(t1, t2) and np.array_equal(t1, t3)):
+            ctx.fail("same seed gives different tables", k=k, seed=seed)
+        for n, v in snap.items():
+            if vars(SW).get(n) != v:
+                ctx.fail("module-level state changed by create_random_shuffles", name=n)
+        ctx.case("shuf %d %d" % (k, seed), not np.array_equal(t1, other), "table")
+
+
+# =============================================================================== C19
+def C19(ctx):
+    rng = ctx.rng
+    for it in range(ctx.n(40, 800)):
+        k = rng.choice([2, 2, 3] if not ctx.thorough else [2, 3, 3, 4])
+        g, t = gen.rand_coding_graph(rng, k, t=rng.choice([1, 2, 2]))
+        if rng.random() < 0.2:
+            g = gen.rand_arc_subset(rng, k, 0.5)
+        ins, dele = rng.randrange(2), rng.randrange(2)
+        acc = np.array(g.rows(), dtype=int)
+        lm = {u: [succ(u, j, k) for j in g.live(u)] for u in g.vertices()}
+        steps = 0
+        maxsteps = rng.choice([1, 3, 10, 10 ** 6 if ctx.thorough else 12])
+        while steps < maxsteps:
+            a_tok, l_tok = proto.enc_acc(acc), proto.enc_lmap(lm)
+            sc_txt = ctx.corr("cis %s %d %d %d" % (l_tok, k, ins, dele))
+            scores = [[int(x) for x in r.split(",")] for r in sc_txt.split(";")]
+            if len(scores) != 4 ** k or any(len(r) != 4 for r in scores):
+                ctx.fail("scores do not have the accessor's shape", k=k)
+            for u in range(4 ** k):
+                for j in range(4):
+                    if scores[u][j] > 0 and acc[u][j] < 0:
+                        ctx.fail("positive score on a missing arc", acc=a_tok, u=u, j=j)
+            key = "rna %s %s %d %d" % (a_tok, l_tok, ins, dele)
+            out = ctx.corr(key)
+            r = parse_ok(out)
+            if r is None:
+                break
+            before = acc.copy()
+            res = SW.remove_nasty_arc(acc, lm, has_insertion=bool(ins), has_deletion=bool(dele))
+            acc2, lm2, (f, l), _ = res
+            changed = [(u, j) for u in range(4 ** k) for j in range(4) if before[u][j] != acc2[u][j]]
+            if len(changed) != 1 or before[changed[0]] < 0 or acc2[changed[0]] != -1:
+                ctx.fail("call did not remove exactly one existing arc", line=key, changed=[list(c) for c in changed])
+            else:
+                u, j = changed[0]
+                if (int(f), int(l)) != (u, int(before[u][j])):
+                    ctx.fail("reported arc is not the removed one", line=key)
+                mx = max(max(r_) for r_ in scores)
+                if scores[u][j] != mx:
+                    ctx.fail("removed arc does not have the maximum intersection score", line=key, score=scores[u][j], maximum=mx)
+            lm_chk = GZ.accessor_to_latter_map(acc2)
+            if {int(a): [int(x) for x in b] for a, b in lm_chk.items()} != {int(a): [int(x) for x in b] for a, b in lm2.items()}:
+                ctx.fail("accessor and latter map describe different graphs after the call", line=key)
+            acc, lm = acc2, lm2
+            steps += 1
+        ctx.case("hist %s %d %d %d" % (g.token(), ins, dele, steps), steps >= 2, "len=%d" % min(steps, 12), "k=%d" % k)
+
+
+# =============================================================================== C20
+def snapshot(x):
+    if isinstance(x, np.ndarray):
+        return ("nd", str(x.dtype), x.shape, x.tobytes(), x.flags.writeable)
+    if isinstance(x, dict):
+        return ("dict", tuple((snapshot(k), snapshot(v)) for k, v in x.items()))
+    if isinstance(x, (list, tuple)):
+        return (type(x).__name__, tuple(snapshot(v) for v in x))
+    if isinstance(x, BF.LocalBioFilter):
+        return ("flt", snapshot(sorted((k, repr(v)) for k, v in vars(x).items())))
+    return ("v", repr(x))
+
+
+def canon(x):
+    if isinstance(x, np.ndarray):
+        return ("nd", x.tolist())
+    if isinstance(x, (np.integer,)):
+        return int(x)
+    if isinstance(x, (np.floating, float)):
+        return round(float(x), 9)
+    if isinstance(x, (np.bool_,)):
+        return bool(x)
+    if isinstance(x, dict):
+        return ("dict", [(canon(k), canon(v)) for k, v in x.items()])
+    if isinstance(x, (list, tuple)):
+        return (type(x).__name__, [canon(v) for v in x])
+    return x
+
+
+def C20(ctx):
+    rng = ctx.rng
+    import copy
+    for it in range(ctx.n(40, 1500)):
+        k = rng.choice([2, 2, 3])
+        g, t = gen.rand_coding_graph(rng, k)
+        vs = g.vertices()
+        v = rng.choice(vs)
+        shared = {
+            "acc": np.array(g.rows(), dtype=int),
+            "bits": np.array(gen.rand_bits(rng, 24) or [1, 0, 1], dtype=int),
+            "tbl": np.array(gen.rand_table(rng, k, "random"), dtype=int),
+            "mask": np.array(gen.rand_mask(rng, k, 0.8), dtype=rng.choice([int, bool])),
+            "lm": {u: [succ(u, j, k) for j in g.live(u)] for u in vs},
+            "flt": mk(k, rng.choice([None, 2]), rng.choice([None, [0.25, 0.75]]), rng.choice([None, ["GC"]])),
+        }
+        fast = not g.has_deg3_from(v) and rng.random() < 0.4
+        strand = SW.encode(shared["bits"].copy(), shared["acc"].copy(), v, is_faster=fast, shuffles=shared["tbl"].copy())
+        A, B, T_, M, LM, F = (shared[x] for x in ("acc", "bits", "tbl", "mask", "lm", "flt"))
+        noisy = strand
+        if len(noisy) > 2:
+            noisy = gen.apply_edit(noisy, gen.rand_edit(rng, noisy))
+        calls = {
+            "encode": (lambda vb=False: SW.encode(B, A, v, is_faster=fast, shuffles=T_, vt_length=3, verbose=vb),
+                       "enc %s %s %d %s %d 3" % (g.token(), proto.enc_tbl(T_), v, proto.enc_bits(B), int(fast))),
+            "decode": (lambda vb=False: SW.decode(strand, len(B), A, v, is_faster=fast, shuffles=T_, verbose=vb),
+                       "dec %s %s %d %s %d %d None" % (g.token(), proto.enc_tbl(T_), v, tok(strand), len(B), int(fast))),
+            "repair": (lambda vb=False: SW.repair_dna(noisy + "ACGT" * k, A, v, k, has_indel=True, heap_size=1000),
+                       rep_line(g, noisy + "ACGT" * k, v, "None", 1, 1000)),
+            "set_vt": (lambda vb=False: SW.set_vt(strand, 4), "vt %s 4" % tok(strand)),
+            "to_lmap": (lambda vb=False: GZ.accessor_to_latter_map(A, verbose=vb), "a2l " + g.token()),
+            "to_acc": (lambda vb=False: GZ.latter_map_to_accessor(LM, k, verbose=vb), "l2a %s %d -" % (proto.enc_lmap(LM), k)),
+            "to_acc_t": (lambda vb=False: GZ.latter_map_to_accessor(LM, k, threshold=2, verbose=vb),
+                         "l2a %s %d 2" % (proto.enc_lmap(LM), k)),
+            "to_matrix": (lambda vb=False: GZ.accessor_to_adjacency_matrix(A, verbose=vb), "a2m " + g.token()),
+            "vertices": (lambda vb=False: GZ.obtain_vertices(A), "verts " + g.token()),
+            "leaf": (lambda vb=False: GZ.obtain_leaf_vertices(v, 2, accessor=A), "leafa %s %d 2" % (g.token(), v)),
+            "scores": (lambda vb=False: GZ.calculate_intersection_score(LM, observed_length=k, verbose=vb),
+                       "cis %s %d 1 1" % (proto.enc_lmap(LM), k)),
+            "capacity": (lambda vb=False: GZ.approximate_capacity(A, verbose=vb), None),
+            "valid_graph": (lambda vb=False: SW.connect_valid_graph(k, M, verbose=vb), None),
+            "coding_graph": (lambda vb=False: SW.connect_coding_graph(k, M, rng_t, verbose=vb), None),
+            "find": (lambda vb=False: SW.find_vertices(k, F, verbose=vb), None),
+            "bits2num": (lambda vb=False: OP.bit_to_number(B, verbose=vb), "b2n " + proto.enc_bits(B)),
+            "shuffles": (lambda vb=False: SW.create_random_shuffles(k, random_seed=77, verbose=vb), None),
+            "remove_useless": (lambda vb=False: GZ.remove_useless(LM, 2, verbose=vb), "rmu %s 2" % proto.enc_lmap(LM)),
+        }
+        rng_t = rng.choice([1, 2])
+        # isolated results on private deep copies, computed first
+        iso = {}
+        for name in calls:
+            priv = copy.deepcopy(shared)
+            A, B, T_, M, LM, F = (priv[x] for x in ("acc", "bits", "tbl", "mask", "lm", "flt"))
+            iso[name] = proto.guarded(lambda: canon(calls[name][0]()), 60)
+        A, B, T_, M, LM, F = (shared[x] for x in ("acc", "bits", "tbl", "mask", "lm", "flt"))
+        hist = [rng.choice(list(calls)) for _ in range(rng.choice([3, 5, 8, 12 if ctx.thorough else 8]))]
+        for name in hist:
+            before = {n: snapshot(x) for n, x in shared.items()}
+            verbose = rng.random() < 0.4
+            buf = io.StringIO()
+            with contextlib.redirect_stdout(buf):
+                got = proto.guarded(lambda: canon(calls[name][0](verbose)), 60)
+            if got != iso[name]:
+                ctx.fail("call in a history returns something else than the same call on fresh equal arguments"
+                         + (" (verbose on)" if verbose else ""), call=name, history=hist, observed=str(got)[:300],
+                         expected=str(iso[name])[:300])
+            after = {n: snapshot(x) for n, x in shared.items()}
+            for n in shared:
+                if before[n] != after[n]:
+                    ctx.fail("argument modified by a call", call=name, argument=n, history=hist)
+            if calls[name][1] is not None:
+                ctx.corr(calls[name][1])
+        ctx.case("hist %s %s" % (g.token(), ",".join(hist)), len(hist) >= 3, "len=%d" % len(hist))
